@@ -92,6 +92,16 @@ theorem jet_mulVec_tmulVec {R : M33 K} (h : IsOrtho R) (w : V3 K) (x : V3 (Jet1 
   · linear_combination x0 * h02 + x1 * h12 + x2 * h22
   · linear_combination y0 * h02 + x0 * ((-w.y) * h00 + (w.x) * h01 + (-w.z) * h12 + (w.y) * h22) + y1 * h12 + x1 * ((-w.y) * h01 + (w.z) * h02 + (w.x) * h11 + (-w.x) * h22) + y2 * h22 + x2 * ((-w.y) * h02 + (-w.y) * h02 + (w.x) * h12 + (w.x) * h12)
 
+theorem V3.add_cross_zero (a w : V3 K) : a.add (w.cross V3.zero) = a := by
+  obtain ⟨a0, a1, a2⟩ := a
+  simp only [V3.add, V3.cross, V3.zero, V3.mk.injEq]; refine ⟨?_, ?_, ?_⟩ <;> ring
+theorem V3.sub_cross_zero (a w : V3 K) : a.sub (w.cross V3.zero) = a := by
+  obtain ⟨a0, a1, a2⟩ := a
+  simp only [V3.sub, V3.cross, V3.zero, V3.mk.injEq]; refine ⟨?_, ?_, ?_⟩ <;> ring
+theorem V3.add_zero_cross (a b : V3 K) : a.add ((V3.zero : V3 K).cross b) = a := by
+  obtain ⟨a0, a1, a2⟩ := a
+  simp only [V3.add, V3.cross, V3.zero, V3.mk.injEq]; refine ⟨?_, ?_, ?_⟩ <;> ring
+
 /-- the identity matrix is orthogonal (non-vacuity of `IsOrtho`) -/
 theorem isOrtho_id : IsOrtho (⟨⟨1, 0, 0⟩, ⟨0, 1, 0⟩, ⟨0, 0, 1⟩⟩ : M33 K) := by
   constructor <;> simp [V3.dot]
